@@ -462,12 +462,6 @@ theorem recursion_sites :
     Generated.selfCalls = [("common/tools/hash_type.rs", "printable"), ("common/type.rs", "ungroup"), ("common/type.rs", "dereference")]
       ∧ Generated.openLoops = [] := by decide
 
-/-- **No `debug_assert!` does any work**: the argument of none of the `debug_assert!`s of /repo/src calls a mutating
-    method or assigns (regenerated table; the translator lists the offenders). A proc-macro built by cargo's release
-    profile has its debug assertions compiled out, so a statement hidden in one (`debug_assert!(map.insert(..).is_none())`)
-    would make the macro behave differently there than in the builds the tests and these checks use. -/
-theorem debug_asserts_pure : Generated.debugAssertEffects = [] ∧ 0 < Generated.debugAssertCount := by decide
-
 /-! ### the handlers and `derive_input_handler` as a whole
 
 Every handler is a composition of the scanners and builders above; `np_step` walks such a
